@@ -86,3 +86,10 @@ PROPS["C06"] = dict(level="exploration",
     units=[Unit("c06_sched", "harness/c06_sched.cpp", cfg="d17", max_size=120, pin=True, shards=8,
                 quick=(30, 400000), thorough=(480, 20000000))],
     assumptions=_DS_ASSUME + ["std::mutex / condition_variable / thread inside the contexts are modelled by detsched (spurious wake-ups are generated)"])
+
+PROPS["C16"] = dict(level="exploration",
+    units=[Unit("c16_event", "harness/c16_event.cpp", cfg="d17", max_size=120, pin=True, shards=8,
+                quick=(25, 400000), thorough=(400, 20000000)),
+           Unit("c16_pass", "harness/c16_pass.cpp", cfg="d20", max_size=120, pin=True, shards=8,
+                quick=(25, 400000), thorough=(400, 20000000))],
+    assumptions=_DS_ASSUME)
